@@ -23,6 +23,8 @@ def declare(c):
     c.rule('C14.R6', 'retraction / E-register typestate machine with the @-command actions in the environment: a disable '
                      '(inside or outside an episode) and a later enable leave no obligation behind that the same program '
                      'without @-commands would have honoured (owed recovery, E re-synchronisation)', floor=20)
+    c.rule('C14.R7', 'with exclusion enabled every move (X/Y/Z word, arcs) is decided by a fresh region test of the tracked '
+                     'position, never from remembered state: after re-enabling the first move already sees the true position', floor=100)
     c.rule('C14.R5', 'the actions accepted by the configuration are exactly the actions dispatched', floor=1)
 
 
@@ -189,6 +191,16 @@ def path_rules(col, gcode, paths, I):
     declare(col)
     for p in paths:
         f = Facts(p, I)
+        if not f.raised and f.pre_enabled is not False:
+            moved = gcode in ('G2', 'G3') and ('ExcludeRegionState', 'processLinearMoves') in f.calls
+            moved = moved or f.valued('X') or f.valued('Y') or f.valued('Z')
+            if moved:
+                col.instance('C14.R7', (gcode, f.describe(), tuple(f.decisions()[-4:])))
+                if not f.region_tested:
+                    col.report('C14.R7', 'ExcludeRegionState.isAnyPointExcluded', '%s decided without a region test while enabled' % gcode,
+                               'with exclusion enabled a move (here: %s) is decided from remembered state instead of testing the '
+                               'tracked position: directly after an enable @-command that state is stale, the tool may already be '
+                               'inside a region' % f.describe(), detail={'entry': p.entry, 'decisions': f.decisions()})
         if f.raised or f.pre_enabled is not False:
             continue
         sig = (gcode, f.describe(), tuple(f.decisions()[-5:]))
